@@ -6,4 +6,5 @@ CONSTANTS
   TPad = 3
 INVARIANT Refinement
 INVARIANT Sound
+INVARIANT RangeLimited
 CHECK_DEADLOCK FALSE
